@@ -26,6 +26,7 @@ type replayFile struct {
 var (
 	file     replayFile
 	next     int
+	scheds   []int
 	Failures []string
 	Observed []string
 )
@@ -38,10 +39,30 @@ func Load(path string) error {
 	}
 	file = replayFile{}
 	next = 0
+	scheds = nil
 	Failures = nil
 	Observed = nil
-	return json.Unmarshal(b, &file)
+	if err := json.Unmarshal(b, &file); err != nil {
+		return err
+	}
+	// scheduling choices of the engine are not consumed by nondet calls
+	var vals []rec
+	for _, v := range file.Values {
+		if v.Kind == "sched" {
+			var x int
+			json.Unmarshal(v.Val, &x)
+			scheds = append(scheds, x)
+		} else {
+			vals = append(vals, v)
+		}
+	}
+	file.Values = vals
+	return nil
 }
+
+// DeliveryOrder returns the goroutine ids (spawn order, 1-based) in the order in
+// which the engine let them deliver on channels (native replay only).
+func DeliveryOrder() []int { return scheds }
 
 func HarnessName() string { return file.Harness }
 
